@@ -138,6 +138,18 @@ func H12_completion() {
 			ok = seen[0].Typ == specPUBLISH && seen[1].Typ == specPUBREL && seen[1].ID == seen[0].ID
 		}
 		vrtAssert("C12.pubrel_follows_pubrec_same_id", ok)
+		if ok {
+			// every PUBREC is answered, also a repeated one after the exchange has completed
+			c.peerSend(specEncode(&specPkt{Typ: specPUBREC, ID: seen[0].ID}))
+			vrtQuiesce()
+			again, okp := vrtParse(c.peerTake())
+			answered := okp && len(again) == 1
+			if answered {
+				answered = again[0].Typ == specPUBREL && again[0].ID == seen[0].ID
+			}
+			vrtAssert("C12.repeated_pubrec_answered", answered)
+			vrtAssert("C12.completion_not_repeated", completions == 1)
+		}
 	}
 	vrtObserve("completion", kind, completions)
 	vrtReach("C12.completed")
